@@ -6,6 +6,7 @@ import (
 	"bytes"
 	"fmt"
 	cosmos_proto "github.com/cosmos/cosmos-proto"
+	"math/rand"
 	"reflect"
 	"strings"
 
@@ -637,6 +638,13 @@ func (c *apiCtx) valueAPI(s *glue.Subject, idx int) {
 	v3 := NewGen(seed^0x51, o2).Msg(d, 0)
 	dropForeignNegZero(v3, false)
 	S3 := BuildStruct(s.Zero, v3)
+	if idx%3 == 1 {
+		// message state with nil pointers as list elements / map values (they read as empty messages)
+		if nilOutMessages(reflect.ValueOf(S3), rand.New(rand.NewSource(seed^0x77)), 0) > 0 {
+			v3 = Canon(StructToIR(S3))
+			c.rep.Count("C19", "string-states-with-nil-elements", 1)
+		}
+	}
 	if st, ok := S3.(fmt.Stringer); ok {
 		var txt string
 		pan, pmsg := safely(func() { txt = st.String() })
